@@ -162,6 +162,14 @@ def run(ck):
                          "calls after the failed command: %s" % [e[1] for e in later])
         ck.floor("C06-V", "error paths of execute", n, 2)
 
+    # ---- C06-H: the path context after a faulty unit is the one a faultless unit would have left (so the units after it and
+    # the following messages are resolved as if the fault had not happened)
+    import c02
+    c02.rule_R(ck, lib, pfx="C06-H")
+    # ---- C06-A: generated arms refuse a wrong parameter count / unconvertible parameter before calling the handler
+    import c03
+    c03.rule_A(ck, A="C06-A", N="C06-N")
+
     # ---- C06-S: state inventory
     vars_ = rs.ps.loops.get(rs.loop_site, {}).get("vars", {})
     want = {rs.path_id, rs.input_id}
